@@ -90,6 +90,17 @@ theorem candidate_year_bounded {S : Type} (sc : Scorer S) (ts : Ts) (hts : TsOk 
   exact QuickAdd.reach_year sc ts hts B hB o.depth txt _ (initialStack_ok sc _ _ _ txt fuel) (initialStack_year sc B _ _ _ txt fuel)
     p _ rules hr c.res hm
 
+/-- … and so does every candidate of `ctparse_gen`, with and without latent-time anchoring (an anchored clock time takes the
+    reference date or the day after) -/
+theorem parse_candidate_year_bounded {S : Type} (sc : Scorer S) (ts : Ts) (hts : TsOk ts) (o : Opts) (raw : List Nat) (fuel : Nat) (B : Int)
+    (hB : YearCap ts B) : ∀ c ∈ (ctparseGen sc ts o raw fuel).cands, c.res.v.YearLe B := by
+  intro c hc
+  unfold ctparseGen at hc
+  simp only at hc
+  split at hc
+  · exact latentAll_year ts hts B hB _ (fun c hc => candidate_year_bounded sc ts hts o _ fuel B hB c hc) c hc
+  · exact candidate_year_bounded sc ts hts o _ fuel B hB c hc
+
 /-- the bound is met with room to spare by an ordinary reference time, and it is sharp in kind: a year group may read 2029 -/
 example : YearCap ⟨⟨2018, 3, 7⟩, 12, 43⟩ 2999 := ⟨by decide, by decide⟩
 
